@@ -220,7 +220,9 @@ func (s *Stack) GetString(expr string) (string, bool) {
 	case string:
 		return t, true
 	case fmt.Stringer:
-		return t.String(), true
+		// (through fmt, which survives a nil pointer whose String method has a
+		// value receiver - it prints <nil> - where a direct call panics)
+		return fmt.Sprint(t), true
 	case int, int8, int16, int32, int64:
 		return fmt.Sprintf("%d", t), true
 	case uint, uint8, uint16, uint32, uint64:
